@@ -116,8 +116,8 @@ def error_path(ctx, count):
     cwd = os.getcwd()
     os.chdir(d)
     try:
-        for i in range(max(count, 2 * len(files))):
-            data = files[(i // 2) % len(files)]
+        for i in range(max(count, 8 * len(files))):
+            data = files[(i // 8) % len(files)]
             for kind_flag in ("--lines", "--char", "--symbol", "--js", "--attrs"):
                 f = d / "tc.js"
                 f.write_bytes(data)
@@ -129,6 +129,8 @@ def error_path(ctx, count):
                 raised = None
                 # also with --tempdir naming a directory that does not exist yet: nothing is created before the rejection
                 extra = ["--tempdir=" + str(d / "not-yet-there")] if i % 2 else []
+                # every strategy refuses mismatched markers, also the one that never removes anything
+                extra += [[], ["--strategy=check-only"], ["--strategy=minimize-collapse-brace"], ["--strategy=replace-properties-by-globals"]][(i // 2) % 4]
                 try:
                     Lithium().main(extra + [kind_flag, str(d / "c08_probe_test.py"), str(f)])
                 except LithiumError as exc:
@@ -167,7 +169,9 @@ def protected_through_runs(ctx):
     rng = ctx.rng
     fl = [b"function setup() {\n}\n// DDBEGIN {\nif (x) {\n  \n}\na\n// DDEND }\nif (done) {\n\n}\n",
           b"with (scope) { // DDBEGIN\nb\n{\n\n}\nc {\n} /* DDEND */\n{ \n }\n",
-          b"h {\r\nDDBEGIN\r\n{\r\n\r\n}\r\nDDEND }\r\n"]
+          b"h {\r\nDDBEGIN\r\n{\r\n\r\n}\r\nDDEND }\r\n",
+          # the protected text uses the same names as the region: property accesses and calls before and after the markers
+          b"var f = []; f.push(0); g(1, 2);\n// DDBEGIN f.push(9)\nf.push(1);\nfunction g(a, b) { return a.c + b.d; }\ng(f.x, f.y);\n// DDEND g(3)\nf.push(2); g(f.push, 4);\n"]
     for name, cfg in c05.STRATS:
         for kind in ("line", "char", "symbol"):
             for data in fl:
